@@ -59,6 +59,26 @@ func (t *rec) TransitionEnd(tx *am.Transition) {
 		slices.Clone(tx.TimeBefore), slices.Clone(tx.TimeAfter)})
 }
 
+// exp exports the machine from inside tracer hooks and compares with the machine's time
+type exp struct {
+	*am.TracerNoOp
+	m   *am.Machine
+	bad *string
+}
+
+func (t *exp) check(where string) {
+	data, _, err := t.m.Export()
+	if err != nil {
+		*t.bad = "Export from " + where + " failed: " + err.Error()
+		return
+	}
+	if fmt.Sprint(data.Time) != fmt.Sprint(t.m.Time(nil)) && *t.bad == "" {
+		*t.bad = fmt.Sprintf("Export from %s has time %v, the machine's time is %v", where, data.Time, t.m.Time(nil))
+	}
+}
+func (t *exp) TransitionFinals(tx *am.Transition) { t.check("TransitionFinals") }
+func (t *exp) TransitionEnd(tx *am.Transition)    { t.check("TransitionEnd") }
+
 type op struct {
 	add  bool
 	name string
@@ -337,6 +357,42 @@ func main() {
 				}
 				failing = append(failing, fmt.Sprintf("config=%s history %s => %s", cc.name, strings.Join(hs, " "), bad))
 			}
+		}
+	}
+	// Export in the middle of a transition (final handlers, tracer hooks): the exported time is
+	// the machine's time at that moment, not the one of the previous transition
+	for _, h := range hist {
+		if len(h) != 2 {
+			continue
+		}
+		total++
+		ctx, cancel := context.WithCancel(context.Background())
+		m := am.New(ctx, am.Schema{"A": {}, "B": {Multi: true}, "C": {Remove: am.S{"A"}}}, &am.Opts{Id: "verif-c17"})
+		if err := m.VerifyStates(am.S{"A", "B", "C", am.StateException}); err != nil {
+			panic(err)
+		}
+		bad := ""
+		tr := &exp{TracerNoOp: &am.TracerNoOp{Id: "verif-exp"}, m: m, bad: &bad}
+		m.BindTracer(tr)
+		fin := map[string]am.HandlerFinal{}
+		for _, n := range names {
+			n := n
+			fin[n+"State"] = func(e *am.Event) { tr.check(n + "State") }
+			fin[n+"End"] = func(e *am.Event) { tr.check(n + "End") }
+		}
+		if _, err := m.HandlersBindMaps(nil, fin); err != nil {
+			panic(err)
+		}
+		for _, o := range h {
+			if o.add {
+				m.Add1(o.name, nil)
+			} else {
+				m.Remove1(o.name, nil)
+			}
+		}
+		cancel()
+		if bad != "" {
+			failing = append(failing, fmt.Sprintf("export-in-transition history %s %s => %s", h[0], h[1], bad))
 		}
 	}
 	json.NewEncoder(os.Stdout).Encode(map[string]any{"failing": failing, "total": total})
